@@ -10,6 +10,7 @@ import (
 	"os"
 	"path/filepath"
 	"strconv"
+	"strings"
 	"sync"
 	"syscall"
 
@@ -57,6 +58,9 @@ type FS struct {
 	// Mirror writes every stored value through to the real file as well, so that the final device
 	// state survives the death of the process (process-per-execution harnesses).
 	Mirror bool
+	// Real keeps the values in the REAL files: reads and writes pass through to fan2go's real file code
+	// (so its parsing/formatting is exercised); the FS only intercepts, logs and drives device models.
+	Real bool
 	// Locked serialises Handle with a mutex (several fan2go goroutines use the FS concurrently).
 	Locked bool
 	mu     sync.Mutex
@@ -164,7 +168,20 @@ func (fs *FS) Absent(name string) string {
 }
 
 func (fs *FS) F(path string) *File { return fs.Files[path] }
-func (fs *FS) Val(path string) int { return fs.Files[path].Val }
+func (fs *FS) Val(path string) int {
+	if fs.Real {
+		b, err := os.ReadFile(path)
+		if err != nil {
+			return -1
+		}
+		v, err := strconv.Atoi(strings.TrimSpace(string(b)))
+		if err != nil {
+			return -1
+		}
+		return v
+	}
+	return fs.Files[path].Val
+}
 
 func (fs *FS) Handle(kind, path string, value int) (bool, int, error) {
 	if fs.Locked {
@@ -197,6 +214,15 @@ func (fs *FS) Handle(kind, path string, value int) (bool, int, error) {
 		defer fs.mu.Unlock()
 	}
 	f := fs.Files[path]
+	if fs.Real {
+		if kind == "read" && f.OnRead != nil {
+			if v, err := f.OnRead(); err == nil {
+				_ = os.WriteFile(path, []byte(strconv.Itoa(v)), 0644)
+			}
+		}
+		fs.log(Op{Kind: kind, Path: path, Value: value, Note: " [real]"})
+		return false, 0, nil
+	}
 	if kind == "read" {
 		switch {
 		case f.Missing:
@@ -250,7 +276,7 @@ func (fs *FS) Handle(kind, path string, value int) (bool, int, error) {
 }
 
 func (fs *FS) mirror(path string, v int) {
-	if fs.Mirror {
+	if fs.Mirror || fs.Real {
 		_ = os.WriteFile(path, []byte(strconv.Itoa(v)), 0644)
 	}
 }
